@@ -507,7 +507,22 @@ def r3_monotone_test(ctx):
                 return 1 if a[1] > b[1] else -1
         return None
 
+    # loop counters that start at 1 or later: enumerate(..., start=k>=1)
+    counters = set()
+    for lp_ in ast.walk(f):
+        if isinstance(lp_, ast.For) and isinstance(lp_.iter, ast.Call) and \
+                norm(lp_.iter.func) == "enumerate" and isinstance(
+                    lp_.target, ast.Tuple) and isinstance(
+                    lp_.target.elts[0], ast.Name):
+            st_ = [k.value for k in lp_.iter.keywords if k.arg == "start"]
+            st_ += lp_.iter.args[1:2]
+            if st_ and isinstance(st_[0], ast.Constant) and isinstance(
+                    st_[0].value, int) and st_[0].value >= 1:
+                counters.add(lp_.target.elts[0].id)
+
     def positive(e):
+        if isinstance(e, ast.Name) and e.id in counters:
+            return True
         if isinstance(e, ast.Constant) and isinstance(e.value, (int, float)):
             return e.value > 0
         if isinstance(e, ast.BinOp) and isinstance(e.op, ast.Add):
@@ -529,7 +544,9 @@ def r3_monotone_test(ctx):
              and norm(n.target.value) == "smooth"]
     ctx.floor("tie-breaking bumps", len(bumps), 2)
     for b in bumps:
-        d = direction(Rf.resolve(b.value))
+        d = direction(b.value)
+        if d is None:
+            d = direction(Rf.resolve(b.value))
         if d is None:
             raise Undecided("smooth_axis_monotone: tie-breaking bump "
                             f"{norm(b)[:60]} not understood")
